@@ -293,6 +293,10 @@ def _confirm_child(arg):
     with _Quiet():
         try:
             if kind == "case":
+                if os.environ.get("VERIF_SELFTEST_BREAK_REPLAY"):
+                    # self-test of the fallback below: pretend the module
+                    # cannot replay this case
+                    raise RuntimeError("replay unavailable (self-test)")
                 recs = _MOD.replay(payload)
             else:
                 recs = []
@@ -522,7 +526,9 @@ def _run_check(mod, modname, prop_id, tier, seed, jobs, scratch, t0,
             # under test between calls - and that sequence is the artefact.
             uidx = rec.get("unit")
             found = []
-            if uidx is not None and not err:
+            # (also when the module's replay() itself failed on this case:
+            # re-executing the unit needs no case-specific replay code)
+            if uidx is not None:
                 found, err2 = _in_fresh_child(ctx, modname, scratch,
                                               ("units", [units[uidx]], sig))
                 if found:
